@@ -7,8 +7,11 @@ D: Nsec.tla (zone admin / signer / server / attacker / validator) model-checked:
 R: Gen_Nsec enumerates zones x questions; for every claim the exact family of record subsets Entails
    accepts.  drive_nsec offers every subset (every order, several SOA contexts) to the real
    verify_nsec (hook H1) and compares; the prescribed proof must be accepted.
-   End to end: the zone is signed by the real InMemoryZoneHandler (NxProofKind::Nsec), asked through
-   Catalog, and the response is judged by verify_nsec and by DnssecDnsHandle.
+   End to end: the zone is signed by the real InMemoryZoneHandler (NxProofKind::Nsec; aliases point
+   at hosts of the same zone with fewer / as many / more labels), asked through Catalog, and the
+   response -- negative, wildcard or positive -- is judged by verify_nsec and by DnssecDnsHandle.
+   Fault layer: a wildcard's authentic NSEC + RRSIG renamed to an expanded owner that sorts before
+   the wildcard is offered as an NXDOMAIN proof to DnssecDnsHandle (real signatures).
 T: seeded random larger zones (longer labels): the server's own responses and perturbed proofs.
    Every event (and every R disagreement) is judged by the TLA+ monitor Trace_Nsec, which also says
    which dropped clause of the RFC reading would explain an unsound acceptance.
@@ -31,7 +34,7 @@ GEN_THOROUGH = [
 ]
 
 # fixed order in which alternative explanations are attributed
-PRIORITY = ["rfc6840-type-at-delegation", "rfc6840-below-delegation", "ent-taken-as-absent", "next-is-soa-taken-as-last",
+PRIORITY = ["wildcard-expanded-nsec-used", "rfc6840-type-at-delegation", "rfc6840-below-delegation", "ent-taken-as-absent", "next-is-soa-taken-as-last",
             "wildcard-expansion-intermediate-names-unchecked", "no-soa-parent-taken-as-closest-encloser",
             "closest-encloser-unproven", "last-nsec-spans-other-zones", "cname-bit-ignored"]
 
@@ -51,7 +54,7 @@ def rec_str(r):
 
 
 def ev_key(e):
-    return json.dumps([e["q"], e["t"], e["kind"], e["ce"], e["soa"],
+    return json.dumps([e["origin"], e["q"], e["t"], e["kind"], e["ce"], e["soa"],
                        sorted(json.dumps(p, sort_keys=True) for p in e["proof"]), e["verdict"]])
 
 
@@ -90,7 +93,8 @@ def classify(m):
             out.append(("prescribed-proof-rejected", dict(common, lookup=j["lookup"], kind=e["kind"])))
         else:
             out.append(("server-response-rejected",
-                        dict(common, expected=j["lookup"], got=e["kind"], proof_entails=j["entails"], no_proof=j["noProof"])))
+                        dict(common, expected=j["lookup"], got=e["kind"], proof_entails=j["entails"], no_proof=j["noProof"],
+                             answer_expanded=bool(e.get("ans_expanded", False)))))
     return out
 
 
@@ -113,7 +117,7 @@ def run(res, tier, seed):
     # ---- D
     cfgs = ["MC_Nsec", "MC_Nsec_lemmas"] + (["MC_Nsec_thorough", "MC_Nsec_star", "MC_Nsec_deep"] if thorough else [])
     for cfg in cfgs:
-        st = vlib.mc(mc_tla, os.path.join(vlib.SPEC, cfg + ".cfg"), wd, workers=8, timeout=2400)
+        st = vlib.mc(mc_tla, os.path.join(vlib.SPEC, cfg + ".cfg"), wd, workers=6, timeout=2400)
         res.add_mc(cfg, st)
     # anti-vacuity: both verdicts are reachable for forged responses (expected-to-fail configurations)
     for wit in ["W_SecureForged", "W_BogusTrue"]:
@@ -136,7 +140,7 @@ def run(res, tier, seed):
             f"  Universe <- {uni}", f"  QNames <- {qn}", f"  QTypes <- {qt}", f"  MaxOwners = {mo}", "  MaxProof = 2",
             f"  GenK = {k}", "INVARIANT Emit", "CHECK_DEADLOCK FALSE"]
         tla, cfg = vlib.wrapper(wd, name, "Gen_Nsec, NsecScopes", {}, cfg_lines)
-        rc, out = vlib.tlc(tla, cfg, wd, workers=8, timeout=3000, heap="12g")
+        rc, out = vlib.tlc(tla, cfg, wd, workers=6, timeout=3000, heap="12g")
         if rc != 0 or "No error has been found" not in out:
             vlib.log(out[-3000:])
             raise vlib.ToolError(f"generator {name} failed rc={rc}")
@@ -199,7 +203,7 @@ def run(res, tier, seed):
     all_trace = os.path.join(wd, "all.trace.ndjson")
     seen = set()
     forged = []
-    n_server = n_prescribed = n_forged_total = 0
+    n_server = n_prescribed = n_forged_total = n_forged_full = 0
     apex = None
     with open(all_trace, "w") as out:
         for src, t in traces:
@@ -209,10 +213,11 @@ def run(res, tier, seed):
                     pending = e
                     apex = e["apex"]
                     continue
-                if e["origin"] == "forged":
+                if e["origin"] in ("forged", "forged-full"):
                     n_forged_total += 1
+                    n_forged_full += e["origin"] == "forged-full"
                     k = ev_key(e)
-                    if src == "R":
+                    if src == "R" and e["origin"] == "forged":
                         r_forged_keys.add(k)
                     if k not in seen:
                         seen.add(k)
@@ -240,9 +245,12 @@ def run(res, tier, seed):
         "random_zone_events": n_rand_events,
         "trace_events_validated": tst["distinct"],
         "forged_events_recorded": n_forged_total,
+        "forged_responses_through_whole_validator(expanded wildcard NSEC + real RRSIG)": n_forged_full,
         "forged_events_distinct": len(forged),
     })
     # every disagreement the driver found against Gen's families must be confirmed by the monitor
+    if not n_forged_full:
+        raise vlib.ToolError("the expanded-NSEC fault was never injected (no zone with a wildcard reached the whole validator)")
     confirmed = {ev_key(m["event"]) for m in mism if m["event"]["origin"] == "forged"}
     missing = r_forged_keys - confirmed
     if missing:
